@@ -19,9 +19,9 @@ type Ins struct {
 
 type Prog []Ins
 
-func I(op string) Ins         { return Ins{Op: op} }
-func PushInt(z int64) Ins     { return Ins{Op: "pushint", Z: z} }
-func PushBytes(b []byte) Ins  { return Ins{Op: "pushbytes", B: hx.Hex(b)} }
+func I(op string) Ins            { return Ins{Op: op} }
+func PushInt(z int64) Ins        { return Ins{Op: "pushint", Z: z} }
+func PushBytes(b []byte) Ins     { return Ins{Op: "pushbytes", B: hx.Hex(b)} }
 func (p Prog) add(q ...Ins) Prog { return append(p, q...) }
 
 var simpleOps = map[string]neovm.OpCode{
